@@ -8,7 +8,7 @@
 From Coq Require Import List Arith Bool Reals QArith Lia Lra ZArith.
 From TLV Require Import Base.Shape Base.PyList Base.Tensor Base.Ops Base.RSum Model.Metrics Model.MetricsSrc Proofs.MetricsProofs
   Proofs.MetricsProofs2 Proofs.MetricsProofs3 Proofs.MetricsProofs4 Proofs.MetricsProofs5 Proofs.MetricsProofs6
-  Proofs.MetricsProofs7 Proofs.MetricsProofs8 Proofs.MetricsProofs9 Proofs.MetricsProofs10 Proofs.MetricsProofs11 Proofs.MetricsProofs12 Proofs.MetricsProofs13 Proofs.MetricsProofs14 Proofs.MetricsProofs15 Proofs.MetricsSrcTie.
+  Proofs.MetricsProofs7 Proofs.MetricsProofs8 Proofs.MetricsProofs9 Proofs.MetricsProofs10 Proofs.MetricsProofs11 Proofs.MetricsProofs12 Proofs.MetricsProofs13 Proofs.MetricsProofs14 Proofs.MetricsProofs15 Proofs.MetricsProofs16 Proofs.MetricsProofs17 Proofs.MetricsProofs18 Proofs.MetricsSrcTie Model.MetricsPermute.
 Import ListNotations.
 Local Close Scope Q_scope.
 Local Open Scope R_scope.
@@ -700,3 +700,161 @@ Example C20_ex_tuple_axes_Q :
   norm_axes [(-1)%Z; 0%Z] 2 = Ok [1; 0]%nat /\ norm_axes [0%Z; (-2)%Z] 2 = Err /\ norm_axes [2%Z] 2 = Err /\
   MSE_axes Qops [1; 0]%nat (mk [2; 2]%nat [1; 2; 3; 4]) (mk [2; 2]%nat [0; 0; 0; 0]) = mk [] [15 # 2].
 Proof. vm_compute. repeat split. Qed.
+
+Local Close Scope Q_scope.
+Local Open Scope R_scope.
+(* ---------- THE ROUNDING OF THE EXECUTED OPTIMALITY CHECKS, EXPLICIT ----------
+   The correspondence decides optimality of the implementation's matching on the congruence matrix rounded DOWN to multiples
+   of 2^-80 (Corr/C20.v: qdy, mdy).  (a) the rounding lemma over Q; (b) e-optimal on a matrix rounded down by at most delta
+   => (e + delta)-optimal on the exact matrix, for the brute force and for the dual certificate; (c) through the Q -> R
+   transfer: the BOOLEANS the correspondence evaluates imply optimality up to 1e-9 (..) + 2^-80 on the exact rational matrix of
+   the case, stated about the real-number model. *)
+Theorem C20_qdy_rounds_down : forall x : Q, (Corr.C20.qdy x <= x)%Q /\ (x < Corr.C20.qdy x + (1 # (2 ^ 80)))%Q.
+Proof. exact qdy_spec. Qed.
+Print Assumptions C20_qdy_rounds_down.
+
+Theorem C20_mdy_rounded_down : forall (r : nat) (M : mat Q) (i j : nat), (i < r)%nat -> (j < r)%nat ->
+  mget Rops (mapR (Corr.C20.mdy M)) i j <= mget Rops (mapR M) i j <= mget Rops (mapR (Corr.C20.mdy M)) i j + / 2 ^ 80.
+Proof. exact mdy_rounded_down. Qed.
+Print Assumptions C20_mdy_rounded_down.
+
+Theorem C20_brute_force_rounded_optimal : forall (r : nat) (delta e : R) (C Cd : mat R) (p : list nat), (0 < r)%nat -> is_perm r p ->
+  (forall i j, (i < r)%nat -> (j < r)%nat -> mget Rops Cd i j <= mget Rops C i j <= mget Rops Cd i j + delta) ->
+  score Rops r Cd (best_perm Rops r Cd) <= score Rops r Cd p + e ->
+  forall q, is_perm r q -> score Rops r C q <= score Rops r C p + e + delta.
+Proof. exact brute_force_rounded_optimal. Qed.
+Print Assumptions C20_brute_force_rounded_optimal.
+
+Theorem C20_dual_certificate_rounded : forall (r : nat) (delta eps : R) (C Cd : mat R) (vs : list R) (p : list nat), (0 < r)%nat -> is_perm r p ->
+  (forall i j, (i < r)%nat -> (j < r)%nat -> mget Rops Cd i j <= mget Rops C i j <= mget Rops Cd i j + delta) ->
+  dual_gap Rops r Cd vs p <= eps ->
+  forall q, is_perm r q -> score Rops r C q <= score Rops r C p + eps / INR r + delta.
+Proof. exact dual_certificate_rounded. Qed.
+Print Assumptions C20_dual_certificate_rounded.
+
+(* the executed certificate check (ranks up to 14), rounding and tolerance included *)
+Theorem C20_certified_on_sound : forall (r : nat) (C : mat Q) (p : list nat) (vs : list Q), (0 < r)%nat ->
+  Corr.C20.certified_on r C p vs = true ->
+  is_perm r p /\ forall q, is_perm r q -> score Rops r (mapR C) q <= score Rops r (mapR C) p + / 10 ^ 9 + / 2 ^ 80.
+Proof. exact certified_on_sound. Qed.
+Print Assumptions C20_certified_on_sound.
+
+(* the executed brute-force check *)
+Theorem C20_optimal_on_sound : forall (r : nat) (C : mat Q) (p : list nat), (0 < r)%nat ->
+  Corr.C20.optimal_on r C p = true ->
+  let Cd := mapR (Corr.C20.mdy C) in
+  is_perm r p /\ forall q, is_perm r q ->
+    score Rops r (mapR C) q <=
+    score Rops r (mapR C) p + / 10 ^ 9 * (1 + Rabs (score Rops r Cd p) + Rabs (score Rops r Cd (best_perm Rops r Cd))) + / 2 ^ 80.
+Proof. exact optimal_on_sound. Qed.
+Print Assumptions C20_optimal_on_sound.
+
+(* what a passing congruence_coefficient case means, about the real-number model on the rational inputs of the case *)
+Theorem C20_agree_cong_sound : forall (absv : bool) (As Bs : list (mat Q)) (nas nbs : list (list Q)) (v : Q) (p : list nat),
+  Corr.C20.agree_cong absv As Bs nas nbs (Ok (v, p)) = true ->
+  exists (r : nat) (Cq : mat Q), let C := mapR Cq in let Cd := mapR (Corr.C20.mdy Cq) in
+    cong_matrix Rops absv (map mapR As) (map mapR Bs) (map (map Q2R) nas) (map (map Q2R) nbs) = Ok (r, C) /\
+    Rabs (Q2R v - score Rops r C p) <= / 10 ^ 9 * (1 + Rabs (Q2R v) + Rabs (score Rops r C p)) /\
+    ((0 < r)%nat -> is_perm r p /\ forall q, is_perm r q ->
+       score Rops r C q <=
+       score Rops r C p + / 10 ^ 9 * (1 + Rabs (score Rops r Cd p) + Rabs (score Rops r Cd (best_perm Rops r Cd))) + / 2 ^ 80).
+Proof. exact agree_cong_sound. Qed.
+Print Assumptions C20_agree_cong_sound.
+
+(* non-vacuity: an executed certificate and an executed brute-force check that succeed *)
+Example C20_ex_certified_on : Corr.C20.certified_on 2 [[1; 1#2]; [1#3; 1]]%Q [0; 1]%nat [0; 0]%Q = true /\
+                              Corr.C20.optimal_on 2 [[1; 1#2]; [1#3; 1]]%Q [0; 1]%nat = true.
+Proof. vm_compute. split; reflexivity. Qed.
+
+(* ---------- THE CLOSED ENTRY FORMULA OF THE TUPLE-AXIS REDUCTIONS ----------
+   l = the (distinct, legal) axes in descending order, box = their lengths, scatter l ks idx = idx with the coordinates ks
+   re-inserted at the axes l: the entry at idx of the multi-axis sum is ONE sum over the box. *)
+Theorem C20_tsum_axes_closed : forall (axs : list nat) (t : tensor R), NoDup axs -> (forall a, In a axs -> (a < ndim t)%nat) ->
+  let l := sort_desc axs in let bx := box (shape t) l in
+  shape (tsum_axes Rops axs t) = rshape_axes l (shape t) /\ prod bx = red_len_axes axs t /\
+  forall idx, inb (rshape_axes l (shape t)) idx ->
+    tget Rops (tsum_axes Rops axs t) idx = rsum (prod bx) (fun K => tget Rops t (scatter l (unravel bx K) idx)) /\
+    forall K, (K < prod bx)%nat -> inb (shape t) (scatter l (unravel bx K) idx).
+Proof.
+  intros axs t Hn Hl l bx. split; [apply shape_tsum_axes|]. split; [apply prod_bx_red_len|]. intros idx Hi. split.
+  - now apply tsum_axes_closed.
+  - intros K HK. now apply closed_index_inb.
+Qed.
+Print Assumptions C20_tsum_axes_closed.
+
+Theorem C20_MSE_axes_def : forall (axs : list nat) (yt yp : tensor R),
+  NoDup axs -> (forall a, In a axs -> (a < ndim yt)%nat) ->
+  let l := sort_desc axs in let bx := box (shape yt) l in
+  forall idx, inb (rshape_axes l (shape yt)) idx ->
+  let J := fun K => scatter l (unravel bx K) idx in
+  tget Rops (MSE_axes Rops axs yt yp) idx = mean_of (prod bx) (fun K => (tget Rops yt (J K) - tget Rops yp (J K)) ^ 2) /\
+  tget Rops (RMSE_axes Rops sqrt axs yt yp) idx = sqrt (mean_of (prod bx) (fun K => (tget Rops yt (J K) - tget Rops yp (J K)) ^ 2)) /\
+  prod bx = red_len_axes axs yt.
+Proof.
+  intros axs yt yp Hn Hl l bx idx Hi J.
+  destruct (MSE_axes_def axs yt yp Hn Hl idx Hi) as (A & B). split; [exact A|]. split; [|exact B].
+  exact (RMSE_axes_def axs yt yp Hn Hl idx Hi).
+Qed.
+Print Assumptions C20_MSE_axes_def.
+
+Theorem C20_reflective_axes_def_bound : forall (axs : list nat) (yt yp : tensor R), wf yt -> wf yp -> shape yp = shape yt ->
+  NoDup axs -> (forall a, In a axs -> (a < ndim yt)%nat) ->
+  let l := sort_desc axs in let bx := box (shape yt) l in
+  forall idx, inb (rshape_axes l (shape yt)) idx ->
+  let n := prod bx in
+  let f := fun K => tget Rops yt (scatter l (unravel bx K) idx) in let g := fun K => tget Rops yp (scatter l (unravel bx K) idx) in
+  tget Rops (reflective_correlation_axes Rops sqrt axs yt yp) idx =
+    rsum n (fun K => f K * g K) / sqrt (rsum n (fun K => f K ^ 2) * rsum n (fun K => g K ^ 2)) /\
+  (0 < rsum n (fun K => f K ^ 2) * rsum n (fun K => g K ^ 2) ->
+   Rabs (tget Rops (reflective_correlation_axes Rops sqrt axs yt yp) idx) <= 1).
+Proof. intros axs yt yp Wt Wp Sh Hn Hl l bx idx Hi. exact (reflective_axes_def_bound axs yt yp Wt Wp Sh Hn Hl idx Hi). Qed.
+Print Assumptions C20_reflective_axes_def_bound.
+
+(* non-vacuity: axes (0, 2) of a 2 x 3 x 2 shape: descending order [2; 0], box [2; 2], reduced shape [3];
+   K = 3 = (1, 1) in the box re-inserted into idx = [2] gives the full index [1; 2; 1] *)
+Example C20_ex_scatter : sort_desc [0; 2]%nat = [2; 0]%nat /\ box [2; 3; 2]%nat [2; 0]%nat = [2; 2]%nat /\
+  rshape_axes [2; 0]%nat [2; 3; 2]%nat = [3]%nat /\ scatter [2; 0]%nat (unravel [2; 2]%nat 3) [2]%nat = [1; 2; 1]%nat.
+Proof. vm_compute. repeat split. Qed.
+
+(* ---------- cp_permute_factors WITH ITS cp_copy / cp_normalize GLUE (Model/MetricsPermute.v; cp_normalize = C04's model) ----------
+   The reference is always normalised, the tensors to permute only when they come in a list; the COPIES of the original tensors
+   are permuted.  (a) what a successful / failing call returns; (b) every compared factor is the input factor with column i
+   multiplied by c_i = w_i / s_i (factor 0) or 1 / s_i (s_i = recorded norm, or 1 when that is 0), non-zero exactly when the
+   absorbed weight is: by C20_congruence_matrix_rescale_invariant the normalisation then changes no entry of the congruence
+   matrix, while a ZERO weight produces a zero column, which congruence_coefficient rejects; (c) GENUINE DEFECT (known finding
+   cp_permute_factors_zero_weight): the list form rejects a tensor that the single form accepts. *)
+Theorem C20_cp_permute_full_spec : forall (ref : ptensor R) (arg : parg R) (assign : mat R -> list nat),
+  let nrm := match arg with PSingle _ => false | PList _ => true end in
+  let ts := match arg with PSingle t => [t] | PList ts => ts end in
+  match cp_permute_factors_full Rops ref arg assign with
+  | Ok outs => Forall2 (fun t out => exists v,
+        congruence Rops true (compared Rops true ref) (compared Rops nrm t) (pcong ref) (pcong t) assign = Ok (v, snd out) /\
+        fst out = cp_permute Rops (snd out) (pw t) (pfs t)) ts outs
+  | Err => exists t, In t ts /\
+        congruence Rops true (compared Rops true ref) (compared Rops nrm t) (pcong ref) (pcong t) assign = Err
+  end.
+Proof. intros ref arg assign. pose proof (cp_permute_full_spec Rops ref arg assign) as H. destruct arg; exact H. Qed.
+Print Assumptions C20_cp_permute_full_spec.
+
+Theorem C20_cp_permute_compared_factor : forall (t : ptensor R) (j k i : nat), (j < length (pfs t))%nat -> (j < length (pnorm t))%nat ->
+  (i < length (nth j (pnorm t) []))%nat ->
+  let s := Transforms.nz1 Rops (Transforms.vget Rops (nth j (pnorm t) []) i) in
+  let c := (if Nat.eqb j 0 then Transforms.vget Rops (pw t) i else 1) / s in
+  mget Rops (nth j (compared Rops true t) []) k i = c * mget Rops (nth j (pfs t) []) k i /\
+  s <> 0 /\ (c <> 0 <-> (j = 0%nat -> Transforms.vget Rops (pw t) i <> 0)) /\
+  compared Rops false t = pfs t.
+Proof.
+  intros t j k i Hf Ht Hi s c. destruct (compared_factor_entry t j k i Hf Ht Hi) as (A & B & D).
+  split; [exact A|]. split; [exact B|]. split; [exact D | reflexivity].
+Qed.
+Print Assumptions C20_cp_permute_compared_factor.
+
+Theorem C20_cp_permute_list_vs_single_refuted :
+  exists (ref t t' : ptensor Q) (assign : mat Q -> list nat) outs, pw t' = pw t /\ pfs t' = pfs t /\ pnorm t' = pnorm t /\
+    cp_permute_factors_full Qops ref (PSingle t) assign = Ok outs /\
+    cp_permute_factors_full Qops ref (PList [t']) assign = Err.
+Proof.
+  exists wit_ref, (wit_t false), (wit_t true), (fun _ => [1; 0]%nat). eexists.
+  split; [reflexivity|]. split; [reflexivity|]. split; [reflexivity|]. exact cp_permute_list_vs_single_refuted.
+Qed.
+Print Assumptions C20_cp_permute_list_vs_single_refuted.
